@@ -462,7 +462,7 @@ Inductive tstep : tst -> tst -> Prop :=
 | T_read t : tfin t = false -> gm (tg t) (rc (tr t)) <> HEAD -> tstep t {| tg := tg t; tr := rnext (tg t) (tr t); tfin := false |}
 | T_end t : tfin t = false -> gm (tg t) (rc (tr t)) = HEAD ->
     tstep t {| tg := tg t; tr := {| rc := HEAD; rV := rV (tr t); rR := rR (tr t); rW := rW (tr t); rL0 := rL0 (tr t); rE0 := rE0 (tr t) |}; tfin := true |}
-| T_start t : tfin t = true -> tstep t {| tg := tg t; tr := r0 (tg t); tfin := false |}.
+| T_start t : tfin t = true \/ rc (tr t) = HEAD (* a new traversal begins: its first load of the head pointer is the next step *) -> tstep t {| tg := tg t; tr := r0 (tg t); tfin := false |}.
 
 (* what is known about a traversal, while it runs and after it has ended *)
 Record Facts (g : gst) (r : rst) : Prop := {
